@@ -21,6 +21,7 @@ EXPLANATION = (
     "(R9.5) nothing reachable from matches() stores into / deletes from an object other than the matcher itself; (R9.6) no "
     "branch creates callables or bindings (Lambda, NamedExpr, ...). NOT decided: what whitelisted helpers and field-type "
     "constructors do with hostile arguments (e.g. catastrophic regexes)."
+    " Also decided (rules added after the fifth blind round): the call predicate is followed into the matcher methods it calls and the locals it reads (a lazily built name set is a read of the live namespace); a getattr NAME that cannot be traced to a validated source needs the `__` refusal."
 )
 RULE_SUMMARY = ("instances: dynamic call sites, getattr sites, store sites, guard/predicate pairs; non-trivial = a dominance or "
                 "provenance question had to be answered for the site")
